@@ -278,6 +278,18 @@ func runC02(r *ev.Run) {
 				}
 			}
 		}
+		if (ci/5)%4 == 1 {
+			// the first operations on the fresh (trained) EMPTY index: search, Flush, a failing Remove
+			probe()
+			if err := s.idx.Flush(); err != nil {
+				rep(kind+".flush-error", "Flush of an empty index: "+err.Error())
+			}
+			if err := s.idx.Remove(*comet.NewVectorNodeWithID(ids.absent(), nil)); err == nil {
+				rep(kind+".remove-absent-succeeds", "Remove on an empty index returned nil")
+			}
+			probe()
+			r.Count("cases:started-with-operations-on-the-empty-index", 1)
+		}
 		nOps := 8 + rng.IntN(40)
 		// every tenth case of each kind starts from a large index whose size sits next to a power of two (see C01)
 		if (ci/5)%10 == 7 {
@@ -380,6 +392,12 @@ func runC02(r *ev.Run) {
 				m.flush()
 				flushes++
 				r.Count("ops:flush", 1)
+				if rng.IntN(3) == 0 { // idempotent
+					if err := s.idx.Flush(); err != nil {
+						rep(kind+".flush-error", "second Flush in a row: "+err.Error())
+					}
+					r.Count("ops:flush-twice-in-a-row", 1)
+				}
 				for i, q := range qs {
 					after := complete(q, o)
 					if before[i] != nil && after != nil {
